@@ -50,6 +50,8 @@ def g_scenario(r, prof, big=False):
         for _ in range(r.choice([1, 1, 2, 3, 5, 12])):
             msgs.append(gv.g_message(r, prof, op=r.choice(["SearchRequest", "ExtendedRequest"]), mid=mid))
             mid += r.choice([1, 1, 2, 1000, 1, 0])  # 0: a client that numbers two requests alike (well-formed messages all the same)
+        if len(msgs) > 1 and r.random() < 0.15 and msgs[-1][0] != "BindRequest":
+            msgs.append(msgs[-1])  # the very same request PDU twice in a row
         return {"role": role, "setup": [], "msgs": msgs}
     # client
     if r.random() < 0.2:
@@ -90,6 +92,12 @@ def g_scenario(r, prof, big=False):
     if not msgs:
         msgs = [("ExtendedResponse", 1, ((0, "", "", None), None, None), ())]
         setup = [("extended",)]
+    if r.random() < 0.2:
+        # the very same PDU twice in a row (a server may return two identical entries / references for one search)
+        rep = [j for j, m in enumerate(msgs) if m[0] in ("SearchResultEntry", "SearchResultReference")]
+        if rep:
+            j = r.choice(rep)
+            msgs[j:j] = [msgs[j]] * r.choice([1, 1, 3])
     return {"role": role, "setup": setup, "msgs": msgs}
 
 
